@@ -2217,6 +2217,19 @@ theorem node_builtBody (kvs : List (Str × Str)) (h : ValidPairs kvs) :
     simp only [List.map_cons, lnodes_cons, LItem.nodes, List.singleton_append]
     rw [ih (fun x hx => h x (by simp [hx])), entryNew_eq _ _ (h kv (by simp)).2]
 
+theorem builtBody_allNl (kvs : List (Str × Str)) : ∀ i ∈ toPs (builtBody kvs), i.AllNl := by
+  intro i hi
+  simp only [toPs, builtBody, List.map_map, List.mem_map, Function.comp] at hi
+  obtain ⟨kv, _, rfl⟩ := hi
+  exact newEntry_allNl _ _
+
+/-- a paragraph built from pairs ends with a line terminator: `from_iter` leaves it as it is -/
+theorem terminatePara_built (kvs : List (Str × Str)) (h : ValidPairs kvs) :
+    terminatePara (paraOfPairs kvs) = paraOfPairs kvs := by
+  rw [← node_builtBody kvs h]
+  simp only [EUnit.node, terminatePara]
+  rw [terminateLastLine_of_not_needs _ (needsNl_lnodes_allNl _ (builtBody_allNl kvs))]
+
 theorem unitsKids_built (ps : List (List (Str × Str))) (h : ∀ p ∈ ps, ValidPairs p) :
     unitsKids (builtUnits ps) = docOfParas (ps.map paraOfPairs) := by
   induction ps with
@@ -2227,13 +2240,7 @@ theorem unitsKids_built (ps : List (List (Str × Str))) (h : ∀ p ∈ ps, Valid
     | cons q qs =>
       have := ih (fun x hx => h x (by simp [hx]))
       simp only [builtUnits, unitsKids, List.map_cons, docOfParas, node_builtBody p (h p (by simp))] at this ⊢
-      rw [this]; rfl
-
-theorem builtBody_allNl (kvs : List (Str × Str)) : ∀ i ∈ toPs (builtBody kvs), i.AllNl := by
-  intro i hi
-  simp only [toPs, builtBody, List.map_map, List.mem_map, Function.comp] at hi
-  obtain ⟨kv, _, rfl⟩ := hi
-  exact newEntry_allNl _ _
+      rw [this, terminatePara_built p (h p (by simp))]; rfl
 
 /-- **a document built from valid (name, value) pairs satisfies the invariant** -/
 theorem uwf_built (ps : List (List (Str × Str))) (h : ∀ p ∈ ps, ValidPairs p) : UWF (builtUnits ps) := by
